@@ -4,7 +4,12 @@ A case is a program of scripted handlers on one root component plus a top-level 
 
   {'h':   [[kind, [body, ...]], ...]      kind: 0 started, 1 stopped, 3 exception, 10+n user event e<n>;
                                           bodies in priority order (10, 9, ...)
-   'ext': [['n'] | ['f', n] | ['s', code]]  what a second thread does, one entry per idle wait of the loop
+   'ext': [['n'] | ['f', n] | ['s', code, late]]  what a second thread does, one entry per idle wait of the loop;
+                                          late=1: the stopping thread is pre-empted right after its fire(stopped)
+                                          returned (the loop is awake by then) and executes the rest of stop() only
+                                          after run() has returned in the checking thread (controlled pre-emption:
+                                          a wrapper around manager.fire parks exactly that thread; bounded waits are
+                                          liveness guards only)
    'ops': [['run'] | ['stop', code] | ['setrun'] | ['fire', n] | ['flush'] | ['len']]}
   body: {'t': 'p', 'a': [act...], 'r': res}   plain handler
         {'t': 'g', 's': [[[act...], res], ...]}  generator handler, one entry per next()
@@ -15,7 +20,8 @@ The same case is compiled to a real circuits Component (impl) and to a Coq term 
 Observable = the flat log (same alphabet as Model/KLoop.tr without the ghost TFire):
   [1,k] dispatch of k | [2,k,i] plain handler | [3,k,i,g] generator created | [4,g,j] generator step |
   [5,code] stop request | [6,code] SystemExit in the second thread | [7,inf] idle wait | [8] tick |
-  [9,None|[[code]]] run()/stop() returned / raised SystemExit | [10,n] len(manager)
+  [9,None|[[code]]] run()/stop() returned / raised SystemExit | [10,n] len(manager) |
+  [11] the stopping second thread is parked after fire(stopped)
 run() executes in the checking thread; circuits.core.helpers.Event is replaced by a wait double that never
 blocks: every wait is the deterministic point at which the second thread performs the next 'ext' entry.
 """
@@ -107,6 +113,7 @@ class Driver:
         self.runaway = False
         self.ngen = 0
         self.ndisp = 0
+        self.late = None
         self.serial = 0
         self.fired = {}
         self.dispatched = set()
@@ -187,6 +194,21 @@ class Driver:
             log.append([8])
             return orig_tick(*a, **kw)
         app.tick = tick
+        orig_fire = app.fire
+
+        def fire(event, *channels, **kw):
+            r = orig_fire(event, *channels, **kw)
+            L = drv.late
+            if (L is not None and not L['parked'] and threading.current_thread() is L['thread']
+                    and getattr(event, 'name', None) == 'stopped'):
+                # the pre-emption point: fire(stopped) has returned inside stop(), the loop has been woken
+                L['parked'] = True
+                log.append([11])
+                L['evt'].set()
+                if not L['release'].wait(30):      # liveness guard, never the mechanism
+                    L['timed_out'] = True
+            return r
+        app.fire = fire
         return app
 
     def new_event(self, n):
@@ -211,6 +233,44 @@ class Driver:
                     self.log.append([6, -778])
         else:
             self.app.stop(code)
+
+    def late_stop(self, code):
+        """stop(code) by a second thread that loses the race: parked after fire(stopped), released after run()"""
+        if self.runaway:
+            return
+        self.log.append([5, None if code is None else [code]])
+        box = []
+        evt = threading.Event()
+
+        def target():
+            try:
+                self.app.stop(code)
+            except SystemExit as e:
+                box.append(('exit', e.code))
+            except BaseException as e:      # noqa
+                box.append(('err', type(e).__name__))
+            finally:
+                evt.set()
+        t = threading.Thread(target=target)
+        self.late = {'thread': t, 'evt': evt, 'release': threading.Event(), 'box': box, 'parked': False,
+                     'timed_out': False}
+        t.start()
+        if not evt.wait(30):
+            self.runaway = True
+        if not self.late['parked']:
+            self.finish_late()       # the stop was not effective (or did not fire): nothing to pre-empt
+
+    def finish_late(self):
+        L = self.late
+        if L is None:
+            return
+        L['release'].set()
+        L['thread'].join(30)
+        if L['thread'].is_alive() or L['timed_out']:
+            self.runaway = True
+        self.late = None
+        for kind, v in L['box']:
+            self.log.append([6, v if kind == 'exit' and isinstance(v, int) else -778])
 
     def do_acts(self, acts):
         for a in acts:
@@ -246,7 +306,10 @@ class Driver:
                 ev = self.new_event(x[1])
                 in_thread(lambda: self.app.fire(ev))
             elif x[0] == 's':
-                self.do_stop(1, x[1])
+                if len(x) > 2 and x[2]:
+                    self.late_stop(x[1])
+                else:
+                    self.do_stop(1, x[1])
         elif inf:
             self.do_stop(1, None)      # last resort: nobody else will ever stop this loop
 
@@ -284,6 +347,7 @@ class Driver:
                 info['qlen'] = len(app)
                 info['undispatched'] = sorted(s for s in self.fired if s not in self.dispatched)
                 info['still_running'] = bool(app.running)
+                self.finish_late()      # now the pre-empted stopping thread executes the rest of stop()
             elif op[0] == 'stop':
                 info['was_running'] = bool(app.running)
                 info['qlen_before'] = len(app)
@@ -332,6 +396,8 @@ def run_case(case):
         except Runaway:
             drv.runaway = True
     finally:
+        if drv.late is not None:
+            drv.late['release'].set()
         if old_alarm is not None:
             _signal.setitimer(_signal.ITIMER_REAL, 0)
             _signal.signal(_signal.SIGALRM, old_alarm)
@@ -391,7 +457,8 @@ def c_op(o):
 
 
 def c_x(x):
-    return {'n': 'XNop'}.get(x[0]) or ('XFire %d%%nat' % x[1] if x[0] == 'f' else 'XStop %s' % c_code(x[1]))
+    return {'n': 'XNop'}.get(x[0]) or ('XFire %d%%nat' % x[1] if x[0] == 'f' else
+                                       'XStop %s %s' % (c_bool(len(x) > 2 and x[2]), c_code(x[1])))
 
 
 # ----------------------------------------------------------------------------- generator
@@ -476,7 +543,8 @@ class Gen:
             tgt = b['a'] if b['t'] == 'p' else r.choice(b['s'])[0]
             tgt.insert(r.randint(0, len(tgt)), ['s', 1, code])
         elif place == 'ext':
-            ext.insert(r.randint(0, len(ext)), ['s', code])
+            ext.insert(r.randint(0, len(ext)), ['s', code if r.random() < 0.5 else r.choice([1, 3, 7]),
+                                                int(r.random() < 0.6)])
         elif place == 'exit':
             b = some_body([0] + users, 'p')
             b['r'] = ['x', code]
@@ -491,7 +559,7 @@ class Gen:
         elif place == 'stopped':
             b = some_body([1], 'p')
             b['a'].insert(0, ['s', 0, code])        # stop() inside the stopped handler: not running any more
-            ext.append(['s', r.choice(CODES)])
+            ext.append(['s', r.choice(CODES), int(r.random() < 0.4)])
         # make sure the chain is reachable: started fires something
         if h[0] and r.random() < 0.8:
             b0 = h[0][0]
@@ -507,7 +575,7 @@ class Gen:
             if r.random() < 0.4:
                 ops.append(['stop', r.choice(CODES)])
             ops += [['run'], ['len']]
-            ext += [r.choice([['n'], ['f', r.randint(0, NUSER - 1)], ['s', r.choice(CODES)]])
+            ext += [r.choice([['n'], ['f', r.randint(0, NUSER - 1)], ['s', r.choice(CODES), int(r.random() < 0.5)]])
                     for _ in range(r.randint(0, 2))]
         if r.random() < 0.3:
             ops.append(['stop', r.choice(CODES)])
@@ -568,7 +636,8 @@ class C08(Prop):
     thorough_n = 12000
     rule = ('random programs of scripted plain/generator handlers on started, stopped, exception and 5 user events '
             '(acyclic firing), with one deliberately placed stop site (started / mid-chain / generator step / second '
-            'thread inside a handler / second thread while the loop idles / SystemExit / KeyboardInterrupt / inside the '
+            'thread inside a handler / second thread while the loop idles, joined or pre-empted right after its '
+            'fire(stopped) until run() has returned / SystemExit / KeyboardInterrupt / inside the '
             'stopped handler / none; 10 % late-chain cases: a generator outliving stop() that starts event chains of '
             'length 2-4 in every fade-out tick) and exit codes None,0,1,3,7,9; 1-3 run() cycles with stop() on the idle manager '
             'in between; plus the manual main loop (stop() with inline ticks). non-trivial = a run() that dispatched '
@@ -576,7 +645,8 @@ class C08(Prop):
     trusted_base = ['hand-written model Model/KLoop.v tied to /repo by this correspondence run (full log incl. ticks, '
                     'idle waits, generate_events dispatches)',
                     'python oracle in harness/c08.py; wait double for circuits.core.helpers.Event; second thread joined '
-                    'at handler actions and idle waits only (no preemptive interleavings)']
+                    'at handler actions and idle waits; one controlled pre-emption point: the stopping second thread '
+                    'parked after fire(stopped) until run() returned (other pre-emption points are not explored)']
     assumptions = ['iteration order of the task set is recorded from the implementation run and given to the model as '
                    'schedule; theorems hold for every schedule',
                    'exit codes are ints or None; handlers live on the root component; priorities all 0']
